@@ -153,7 +153,9 @@ Proof.
   intros s l s' (_ & _ & _ & T4 & T5 & ND) AT AL F (I1 & I2) H.
   step_inv H; hold_facts; cs_facts; unfold W1b, nlive, wpc_of in *; ssimp; ifs; ssimp;
     try (split; assumption).
-  all: rewrite ?live_upd_same by (cbn [wpcf]; try reflexivity; congruence).
+  all: repeat match goal with E : todo ?s = _ |- context [todo ?s] => rewrite E end.
+  all: rewrite ?live_upd_same by (cbn [wpcf]; repeat match goal with E : wpcf _ = _ |- _ => rewrite E end; reflexivity).
   all: try (split; assumption).
+  all: split; [try pool_inv | try (intros NP; exfalso; eapply NP; eauto; fail)].
   all: show.
 Admitted.
